@@ -9,14 +9,9 @@ import GE.Model.TagSemJson
 
 namespace GE.TagSem
 
-theorem J.same_eq : ∀ a b : J, J.same a b = true → a = b
-  | .num a, .num b, h => by simp only [J.same, beq_iff_eq] at h; rw [h]
-  | .str a, .str b, h => by simp only [J.same, beq_iff_eq] at h; rw [h]
-  | .null, _, h | .undef, _, h | .nan, _, h | .unsup, _, h | .bool _, _, h | .arr _, _, h | .obj _, _, h => by simp [J.same] at h
-  | .num _, .null, h | .num _, .undef, h | .num _, .nan, h | .num _, .unsup, h | .num _, .bool _, h | .num _, .str _, h
-  | .num _, .arr _, h | .num _, .obj _, h => by simp [J.same] at h
-  | .str _, .null, h | .str _, .undef, h | .str _, .nan, h | .str _, .unsup, h | .str _, .bool _, h | .str _, .num _, h
-  | .str _, .arr _, h | .str _, .obj _, h => by simp [J.same] at h
+theorem J.same_eq : ∀ a b : J, J.same a b = true → a = b := by
+  intro a b h
+  cases a <;> cases b <;> simp_all [J.same]
 
 theorem jsonLaw : Law jsonSem (fun _ _ _ => True) where
   cov_all := fun _ _ => trivial
@@ -36,6 +31,7 @@ theorem jsonLaw : Law jsonSem (fun _ _ _ => True) where
   keys_stable := by
     intro key L l0 l1 _ _ _ h
     simp [jsonSem] at h
+  mk_cov := fun _ _ _ _ _ _ _ _ _ => trivial
 
 /-- the functions that are run against the implementation: any history of updates ends, up to creation times, in the tree of a fresh creation -/
 theorem json_updates_refine (t : Tpl TE) (D0 : J) (steps : List (J × Bool)) :
